@@ -332,8 +332,10 @@ def r19_7(chk, P):
         nd = F.ex[e]
         cnt = None
         dst = src = None
+        dirn = None
         if nd['k'] == 'call' and nd['callee'].get('d') in ('memmove', 'memcpy') and len(nd.get('c', [])) == 3:
             dst, src = nd['c'][0], nd['c'][1]
+            dirn = nd['callee'].get('d')
             sz = F.ex[F.strip_casts(nd['c'][2])]
             if sz['k'] == 'bin' and sz['op'] == '*':
                 for a, b in ((sz['c'][0], sz['c'][1]), (sz['c'][1], sz['c'][0])):
@@ -356,6 +358,7 @@ def r19_7(chk, P):
                             if cv['k'] != 'ref' or cv['decl'].get('id') != iv['decl'].get('id'):
                                 continue
                             if c['op'] == '>=' and common.is_zero(F, c['c'][1]):
+                                dirn = 'down'
                                 # counts down from its initial value: init+1 values
                                 for q in F.pos:
                                     qn = F.ex[q]
@@ -366,6 +369,7 @@ def r19_7(chk, P):
                                             cnt = dict(lf)
                                             cnt[1] = cnt.get(1, 0) + 1
                             elif c['op'] == '<':
+                                dirn = 'up'
                                 cnt = _linform(F, c['c'][1], defs)
                             dst, src = nd['c'][0], nd['c'][1]
                             dst, src = l['c'][0], r['c'][0]
@@ -386,10 +390,10 @@ def r19_7(chk, P):
         S = {kk: v for kk, v in S.items() if v != 0}
         if any(isinstance(kk, str) and kk.startswith('@') for kk in S):
             continue            # not the same vector
-        moves.append((e, S, cnt))
+        moves.append((e, S, cnt, dirn))
     chk.require(moves, 'vorbis_synthesis_lapout: no relocation of finished samples found')
     dom = cfg.dominators(F)
-    for i, (e, S, C) in enumerate(sorted(moves, key=lambda m: F.ex[m[0]]['loc'])):
+    for i, (e, S, C, dirn) in enumerate(sorted(moves, key=lambda m: F.ex[m[0]]['loc'])):
         tot = dict(S)
         for kk, v in C.items():
             tot[kk] = tot.get(kk, 0) + v
@@ -401,6 +405,13 @@ def r19_7(chk, P):
                f'offset {show(S)} + count {show(C)} = {n1}' if ok else
                f'offset {show(S)} + count {show(C)} = {show(tot)}, not {n1}: the samples between the moved data and the second half of '
                'the current block are left as they were (stale audio after the lap region)')
+        # the data is moved towards higher addresses inside one vector: source and destination overlap whenever the offset is
+        # smaller than the count, so the copy must run from the top down (or be a memmove)
+        okd = dirn in ('down', 'memmove')
+        chk.ob('R19.7', F.name, f'overlapping-relocation-runs-top-down#{i}', okd, F.where(e),
+               f'the copy is {"a memmove" if dirn == "memmove" else "a descending loop"}' if okd else
+               f'the copy runs {"upwards" if dirn == "up" else "through " + str(dirn)} although the destination lies {show(S)} above the source in the same '
+               'vector: elements are overwritten before they are read, and a run of stale samples follows the lap region')
         # the window fields move by the same amount in the same branch
         loopconds = {F.strip_casts(F.blocks[h_]['term']['cond']) for h_ in cfg.loops(F)
                      if F.blocks[h_].get('term') and F.blocks[h_]['term'].get('cond') is not None}
